@@ -35,7 +35,7 @@ def run(ctx):
     from wcmatch import fnmatch as Fm, glob as Gm
     rng, seed = seeded_rng('c09')
     ctx.proof('Properties/C09.v')
-    strs = list(strings_upto('a*?[]!-()|\\/{}~.', 3 if ctx.quick else 4))
+    strs = list(strings_upto('a*?[]!-()|\\/{}~.\n', 3 if ctx.quick else 4))
     for _ in range(2000 if ctx.quick else 20000):
         strs.append(''.join(rng.choice(ALPHA) for _ in range(rng.randint(1, 9))))
     strs = sorted(set(strs))
@@ -191,6 +191,24 @@ def run(ctx):
     devs = ['//?/GLOBAL/GLOBAL/x*y/f', '//?/GLOBAL/UNC/ser*/sh?re/f', '//?/GLOBAL/GLOBAL/UNC/srv/sh[ab]re/f', '//?/UNC/s*v/share/f',
             '//./GLOBAL/c:/a', '//?/GLOBAL/dev*1/f', '//?/global/global/global/c:/x', '//?/Volume{ab}/f', '//?/UNC/srv/sh{a,b}re/f',
             '//srv/sh*re/f', '//?/unc/Srv/Sh?re/f', '//./UNC/a*/b/f', '//?/GLOBAL/global/unc/h/s*/f', '//?/c:/f', '//?/GLOBAL/x?y', 'c:/f']
+    # the same for bytes, and for drive prefixes written with backslash separators (no other metacharacter after the drive)
+    bdevs = ['\\\\\\\\server\\\\share', '//server\\\\share/file', '//?/UNC/server\\\\share/x', '\\\\\\\\srv\\\\sh\\\\f', 'c:\\\\dir', '//srv/share/f', 'c:/f']
+    for s_ in bdevs:
+        for isb_ in (False, True):
+            S_ = s_.encode('latin-1') if isb_ else s_
+            fvb = Gm.FORCEWIN
+            evals += 1
+            try:
+                imb = Gm.is_magic(S_, flags=fvb)
+                selfm = Gm.globmatch(S_, S_, flags=fvb)
+            except Exception as ex:
+                ctx.counterexample('is_magic/globmatch(%r, FORCEWIN) raised %s' % (S_, type(ex).__name__), {'pattern': repr(S_)})
+                continue
+            if not imb and not selfm:
+                ctx.counterexample('is_magic(%r, FORCEWIN) is False but the pattern does not match the name equal to itself' % (S_,),
+                                   {'pattern': repr(S_), 'bytes': isb_, 'flags': 'FORCEWIN'})
+            if imb != Gm.is_magic(s_, flags=fvb):
+                ctx.counterexample('is_magic(%r, FORCEWIN) differs between str and bytes' % (s_,), {'pattern': s_})
     for s in devs:
         for extra in (0, Gm.CASE, Gm.BRACE | Gm.SPLIT, Gm.EXTGLOB | Gm.CASE):
             fv = Gm.FORCEWIN | extra
